@@ -246,9 +246,7 @@ func determineStatus(statusCode int, latency time.Duration, err error, errorType
 		return domain.StatusHealthy
 	}
 
-	if latency > SlowResponseThreshold {
-		return domain.StatusBusy
-	}
+	// an error status is never routable, however slowly it arrived
 	return domain.StatusUnhealthy
 }
 
